@@ -64,10 +64,30 @@ func hostC20Close(o *out, replay string) {
 			modes = []bool{v == "1"}
 		}
 	}
-	for _, mux := range modes {
-		c20CloseMode(o, seed, mux, newRng(seed^0xC105E).fork(map[bool]uint64{false: 1, true: 2}[mux]))
-		o.flush()
+	if !strings.Contains(replay, "C20.close-mid") {
+		for _, mux := range modes {
+			c20CloseMode(o, seed, mux, newRng(seed^0xC105E).fork(map[bool]uint64{false: 1, true: 2}[mux]))
+			o.flush()
+		}
+		if strings.Contains(replay, "seed=") {
+			return // the replay of one C20.close row (a bare "C20.close mux=…" is the quick tier's selection of modes)
+		}
 	}
+	// a brokered listener of the plugin closed while a dial for it is in flight (between the knock's acknowledgement and
+	// the arrival of the stream at the plugin's main accept loop): no library goroutine panics
+	const midRounds = 6
+	caseLine := fmt.Sprintf("!C20.close-mid rounds=%d", midRounds)
+	o.note("%s%s", c20CloseMarker, caseLine)
+	o.flush()
+	impl, pred := "ok", "ok"
+	for i := 0; i < midRounds && pred == "ok"; i++ {
+		ri, rp := runMuxAcceptorClosesMid()
+		if rp != "ok" {
+			impl, pred = fmt.Sprintf("round=%d %s", i, ri), rp
+		}
+	}
+	o.emit(caseLine, impl, pred)
+	o.flush()
 }
 
 func c20CloseMode(o *out, seed uint64, mux bool, r *rng) {
